@@ -107,6 +107,52 @@ pub fn open_store(dir: &Path) -> Result<(Arc<WriteAheadLog>, WalLogStore), Strin
     })
 }
 
+/// A multi-entry append killed between two of its WAL records (the process dies right before
+/// the (k+1)-th engine call of the batch). The append never returned, so nothing of it is
+/// acknowledged; what the reopened store may report is the acknowledged entries plus a
+/// *prefix* of the batch - never an entry without its predecessors (a hole in the log makes
+/// nodes apply different command sequences).
+pub fn torn_append_case(dir: &Path, case: &(usize, usize, usize)) -> Result<Option<String>, String> {
+    let (pre, n, k) = *case;
+    let _ = std::fs::remove_dir_all(dir);
+    std::fs::create_dir_all(dir).map_err(|e| e.to_string())?;
+    let (wal, mut st) = open_store(dir)?;
+    if pre > 0 {
+        let es: Vec<Entry<AppTypeConfig>> = (0..pre as u64).map(|i| mk_entry(1, i)).collect();
+        tokio::block_on(st.append(es, IOFlushed::new())).map_err(|e| e.to_string())?;
+    }
+    let batch: Vec<Entry<AppTypeConfig>> = (0..n as u64).map(|i| mk_entry(1, pre as u64 + i)).collect();
+    tokio::task::kill_after_engine_calls(Some(k));
+    let hook = std::panic::take_hook();
+    std::panic::set_hook(Box::new(|_| {}));
+    let r = std::panic::catch_unwind(std::panic::AssertUnwindSafe(|| tokio::block_on(st.append(batch, IOFlushed::new()))));
+    std::panic::set_hook(hook);
+    tokio::task::kill_after_engine_calls(None);
+    match r {
+        Ok(_) => return Err(format!("the append of {} entries made fewer than {} engine calls: the kill point was not reached", n, k + 1)),
+        Err(p) => {
+            if p.downcast_ref::<&str>().copied() != Some(tokio::task::KILL_MARK) {
+                return Ok(Some(format!("append of {} entries panicked on its own before engine call {}", n, k + 1)));
+            }
+        }
+    }
+    std::mem::forget(st);
+    std::mem::forget(wal);
+    let (_w2, mut s2) = match open_store(dir) {
+        Ok(x) => x,
+        Err(e) => return Ok(Some(format!("reopen after the killed append failed: {}", e))),
+    };
+    let got: Vec<u64> = tokio::block_on(s2.try_get_log_entries(0..u64::MAX)).map_err(|e| e.to_string())?.iter().map(|e| e.log_id.index).collect();
+    let ok = (0..=n).any(|j| got == (0..(pre + j) as u64).collect::<Vec<u64>>());
+    if !ok {
+        return Ok(Some(format!(
+            "{} acknowledged entries, then an append of {} entries killed after {} of its WAL records: the reopened store holds indices {:?}, which is not the acknowledged log plus a prefix of the batch",
+            pre, n, k, got
+        )));
+    }
+    Ok(None)
+}
+
 /// Is `op` applicable in reference state r (preconditions of the storage API)?
 fn applicable(r: &RefStore, op: &SOp) -> bool {
     match op {
@@ -440,22 +486,32 @@ fn check_c21(tier: &str) -> i32 {
     } else {
         (0, 0, vec![], None, vec![])
     };
+    // multi-entry appends killed between two of their WAL records
+    let mut torn_items: Vec<(usize, usize, usize)> = vec![];
+    for pre in 0..=2usize {
+        for n in 2..=(if thorough { 4usize } else { 3 }) {
+            for k in 0..n {
+                torn_items.push((pre, n, k));
+            }
+        }
+    }
+    let (torn_exec, _ts, torn_bad, _tc, torn_err) = in_children(&torn_items, 10, 60.0, &|dir, c: &(usize, usize, usize)| torn_append_case(dir, c));
     let wall = t0.elapsed().as_secs_f64();
     let samples: Vec<String> = hs.iter().step_by((total / 5).max(1)).take(5).map(|h| format!("{:?}", h)).collect();
     let nviol = 0usize; // recomputed below after known findings are set aside
     write_evidence(
         "C21",
         tier,
-        executed + ab_exec,
-        executed + ab_exec,
+        executed + ab_exec + torn_exec,
+        executed + ab_exec + torn_exec,
         samples,
         cap.is_none(),
         cap.clone(),
-        format!("every history of exactly {} store operations over {{append 1|2 entries (blank / normal / membership payloads), truncate last|last-1, purge first|first+1, save_vote 1|2, save_committed last|None, stop+start, kill+start}} with at least one and at most {} restarts whose operations satisfy the storage API preconditions ({} of {} enumerated histories were applicable), executed on the real WalLogStore; after every operation and every restart get_log_state, read_vote, read_committed and the full entry list are compared with a reference store; plus {} address-book histories through the address-book functions of node.rs (cut out of the file at build time: PeerAddrRecord, load_peer_addr_records, append_peer_addr_record, persist_peer_addr_if_needed) over {{new address, same address again, stop+start, kill+start}}", depth, if thorough { 3 } else { 2 }, executed, total, ab_exec),
+        format!("every history of exactly {} store operations over {{append 1|2 entries (blank / normal / membership payloads), truncate last|last-1, purge first|first+1, save_vote 1|2, save_committed last|None, stop+start, kill+start}} with at least one and at most {} restarts whose operations satisfy the storage API preconditions ({} of {} enumerated histories were applicable), executed on the real WalLogStore; after every operation and every restart get_log_state, read_vote, read_committed and the full entry list are compared with a reference store; plus {} address-book histories through the address-book functions of node.rs (cut out of the file at build time: PeerAddrRecord, load_peer_addr_records, append_peer_addr_record, persist_peer_addr_if_needed) over {{new address, same address again, stop+start, kill+start}}; plus every append of 2..3 (thorough 4) entries behind 0..2 acknowledged ones, killed before each of its WAL records (engine calls of the batch), reopened: the store must hold the acknowledged log plus a prefix of the batch", depth, if thorough { 3 } else { 2 }, executed, total, ab_exec),
         vec!["openraft types/traits are stand-ins with the signatures of openraft 0.10 (storage v2); tokio stand-in runs block_in_place inline; bincode stand-in", "octopii's vendored engine copy runs with its real 10 MiB geometry", "kill = handles forgotten without running destructors in the same process (the page cache survives, as for a killed process)"],
         nviol as u64,
         wall,
-        json!({"skipped_inapplicable": skipped, "machinery_errors": errors.iter().chain(ab_err.iter()).take(5).collect::<Vec<_>>()}),
+        json!({"skipped_inapplicable": skipped, "torn_append_cases": torn_exec, "machinery_errors": errors.iter().chain(ab_err.iter()).chain(torn_err.iter()).take(5).collect::<Vec<_>>()}),
     );
     println!("C21 {}: histories={} executed={} skipped={} address_book={} exhaustive={} wall={:.1}s", tier, total, executed, skipped, ab_exec, cap.is_none(), wall);
     for e in errors.iter().chain(ab_err.iter()).take(3) {
@@ -497,7 +553,16 @@ fn check_c21(tier: &str) -> i32 {
         println!("  address book pattern {:?} :: {}", p, d);
         code = 1;
     }
-    if code == 0 && !errors.is_empty() && executed == 0 {
+    for (c, d) in torn_bad.iter().take(4) {
+        let path = replay_file("C21", json!({"property":"C21","engine":"ocmc-torn-append","case":{"acknowledged_entries":c.0,"batch":c.1,"killed_after_records":c.2},"detail":d}));
+        println!("VIOLATION property=C21 replay={}", path);
+        println!("  append of {} entries behind {} acknowledged ones, killed after {} WAL records :: {}", c.1, c.0, c.2, d);
+        code = 1;
+    }
+    for e in torn_err.iter().take(3) {
+        eprintln!("machinery: {}", e);
+    }
+    if code == 0 && (!torn_err.is_empty() || (!errors.is_empty() && executed == 0)) {
         return 2;
     }
     code
